@@ -5,7 +5,8 @@ Decided statically (necessary conditions visible in the code shape; see DESIGN.m
     and the handler does not re-raise;
  R2 every argument of the retry call binds against the solver's real signature (read from installed source);
  R3 retry and first call agree on x, y, taus, weights, lambda_, fit_intercept (missing = callee default;
-    `self.<attr>` that is a repo-wide constant is folded) and the retry passes normalize_weights=False;
+    `self.<attr>` that is a repo-wide constant is folded; a fit made through functools.partial is read with the bound arguments in
+    place) and the retry passes normalize_weights=False;
  R4 a module-level filter turns the solver's inaccuracy warning into an error - judged against how the INSTALLED cvxpy issues it
     (message text and the module it is attributed to, read from its source) - and nothing in the package relaxes that filter;
  R5 every quantile-regression fit of the conformal model family goes through fit_model;
